@@ -467,6 +467,10 @@ func (g *genState) genReopen() Op {
 	if g.p.name != "protocol" && rng.Chance(20) {
 		op.Peek = rng.Range(1, 2)
 	}
+	if g.p.name == "protocol" && rng.Chance(30) {
+		// the process is killed instead of closing the log (engine K)
+		op.K = "kill"
+	}
 	g.cur = o
 	op.Open = &o
 	return op
